@@ -200,10 +200,12 @@ type track struct {
 	segs                  [][]byte
 	preload               bool // the init segment is put on disk as init_org.* before the run (media-first upload)
 	inexact               bool // the receiver may renumber / re-time the segment: it is looked up by its mdat payload
+	cred                  string // "" = the right credentials; "wrong" / "none": an upload that must be refused (401) when
+	// the channel is configured with credentials
 }
 
 type scenario struct {
-	kind      string // replay | conflict | conc | start | startconc | rounds | burst
+	kind      string // replay | conflict | conc | start | startconc | rounds | burst | live
 	chans     []string
 	tracks    []*track
 	auth      string // none | default | channel
@@ -213,15 +215,19 @@ type scenario struct {
 	clHeader  bool
 	steps     [][2]string
 	pred      *genLine
+	startNr   int            // configured startNr of every channel (the uploads then carry number k + startNr)
+	cfg       *app.Config
+	padcfg    int            // number of other channels in the configuration file, listed before the scenario's channels
+	langcfg   bool           // per-representation language / role / label overrides for audio and text tracks
 	variant   string         // start / rounds: data set and shift class
 	newest    map[string]int // rounds: number the timeline MPD of a channel must end at (by construction), else absent
 }
 
 func (s *scenario) shape() string {
 	var b strings.Builder
-	fmt.Fprintf(&b, "%s|%s|%v|%v|%v|", s.variant, s.auth, s.repcfg, s.streamURL, s.clHeader)
+	fmt.Fprintf(&b, "%s|%s|%v|%v|%v|%d|%v|%d|", s.variant, s.auth, s.repcfg, s.streamURL, s.clHeader, s.startNr, s.langcfg, s.padcfg)
 	for _, t := range s.tracks {
-		fmt.Fprintf(&b, "%s/%s:%s:%s,", t.Ch, t.Tr, t.Mt, t.Lang)
+		fmt.Fprintf(&b, "%s/%s:%s:%s:%s:%v:%d,", t.Ch, t.Tr, t.Mt, t.Lang, t.cred, t.preload, len(t.segs))
 	}
 	return b.String()
 }
@@ -238,12 +244,21 @@ func mkTrack(assets map[string]*asset, ch, name, mt, lang string) *track {
 const user, pswd = "ingest", "s3cret"
 
 func (s *scenario) config() *app.Config {
+	if s.cfg != nil {
+		return s.cfg // read-only for the receiver
+	}
 	cfg := app.GetEmptyConfig()
+	s.cfg = cfg
 	if s.auth == "default" {
 		cfg.DefaultUser, cfg.DefaultPswd = user, pswd
 	}
+	// a receiver that serves many configured channels: the lookup of a channel's entry is a scan of the list
+	for i := 0; i < s.padcfg; i++ {
+		cfg.Channels = append(cfg.Channels, app.ChannelConfig{Name: fmt.Sprintf("other-channel-%05d", i), AuthUser: "u", AuthPswd: "p",
+			StartNr: 1, Reps: []app.RepresentationConfig{{Name: "video", Language: "eng"}}})
+	}
 	for _, ch := range s.chans {
-		cc := app.ChannelConfig{Name: ch}
+		cc := app.ChannelConfig{Name: ch, StartNr: s.startNr}
 		if s.auth == "channel" {
 			cc.AuthUser, cc.AuthPswd = user+ch, pswd+ch
 		}
@@ -260,7 +275,17 @@ func (s *scenario) config() *app.Config {
 				}
 			}
 		}
-		if s.auth == "channel" || s.repcfg {
+		if s.langcfg {
+			for _, t := range s.tracks {
+				if t.Ch == ch && t.Mt == "audio" {
+					cc.Reps = append(cc.Reps, app.RepresentationConfig{Name: t.Tr, Language: "nor", Role: "main", DisplayName: "lyd-" + t.Tr})
+				}
+				if t.Ch == ch && t.Mt == "text" && !s.repcfg {
+					cc.Reps = append(cc.Reps, app.RepresentationConfig{Name: t.Tr, Language: "nor", Role: "caption", DisplayName: "tekst-" + t.Tr})
+				}
+			}
+		}
+		if s.auth == "channel" || s.repcfg || s.langcfg || s.startNr != 0 {
 			cfg.Channels = append(cfg.Channels, cc)
 		}
 	}
@@ -276,7 +301,12 @@ type upRes struct {
 	body   string // start of the response body ("" after a panic caught by the router's Recoverer)
 	stored bool
 	file   string // inexact tracks: name of the file that carries the uploaded payload
+	// unanswered: the handler did not return within answerBound; skipped: not made, the run is already dead
+	unanswered, skipped bool
 }
+
+// answerBound: every upload must be answered within this time (C19.progress).
+const answerBound = 12 * time.Second
 
 type run struct {
 	sc      *scenario
@@ -288,6 +318,10 @@ type run struct {
 	nEv     atomic.Int64 // serial number of process events (the outgoing number k need not be unique)
 	created sync.Map // ch -> *atomic.Int64
 	started sync.Map // ch -> true once a channel goroutine reported the channel as started
+	dead    atomic.Bool // an upload of this run was not answered: no further uploads are made
+	stMu    sync.Mutex
+	status  [][3]any // distinct (ch/tr, k, status) of the uploads made
+	stSeen  map[string]bool
 }
 
 var curRun atomic.Pointer[run]
@@ -334,7 +368,7 @@ func newRun(sc *scenario, root string, w *writer) (*run, error) {
 		cancel()
 		return nil, err
 	}
-	r := &run{sc: sc, dir: dir, router: router, cancel: cancel, w: w}
+	r := &run{sc: sc, dir: dir, router: router, cancel: cancel, w: w, stSeen: map[string]bool{}}
 	for _, t := range sc.tracks {
 		if t.preload {
 			td := filepath.Join(dir, t.Ch, t.Tr)
@@ -385,6 +419,9 @@ func mdatOf(data []byte) []byte {
 
 // uploadBody makes one upload; wrap (optional) replaces the request body reader (gated / slow body).
 func (r *run) uploadBody(t *track, k int, wrap func(io.Reader) io.ReadCloser) upRes {
+	if r.dead.Load() {
+		return upRes{t: t, k: k, skipped: true}
+	}
 	name, body := "init", t.init
 	if k >= 0 {
 		name, body = fmt.Sprintf("%d", k), t.segs[k]
@@ -400,10 +437,13 @@ func (r *run) uploadBody(t *track, k int, wrap func(io.Reader) io.ReadCloser) up
 	if r.sc.clHeader {
 		req.Header.Set("Content-Length", fmt.Sprint(len(body)))
 	}
-	switch r.sc.auth {
-	case "default":
+	switch {
+	case t.cred == "none":
+	case t.cred == "wrong":
+		req.SetBasicAuth(user, "not-the-"+pswd)
+	case r.sc.auth == "default":
 		req.SetBasicAuth(user, pswd)
-	case "channel":
+	case r.sc.auth == "channel":
 		req.SetBasicAuth(user+t.Ch, pswd+t.Ch)
 	}
 	// inexact tracks: the track directory before the upload (a track never has two uploads at a time)
@@ -412,8 +452,24 @@ func (r *run) uploadBody(t *track, k int, wrap func(io.Reader) io.ReadCloser) up
 		before = dirHashes(filepath.Join(r.dir, t.Ch, t.Tr))
 	}
 	rr := httptest.NewRecorder()
-	r.router.ServeHTTP(rr, req)
+	answered := make(chan struct{})
+	go func() {
+		r.router.ServeHTTP(rr, req)
+		close(answered)
+	}()
+	select {
+	case <-answered:
+	case <-time.After(answerBound):
+		r.dead.Store(true)
+		return upRes{t: t, k: k, unanswered: true}
+	}
 	res := upRes{t: t, k: k, status: rr.Code, body: strings.TrimSpace(rr.Body.String())}
+	r.stMu.Lock()
+	if key := fmt.Sprintf("%s/%s|%d|%d", t.Ch, t.Tr, k, rr.Code); !r.stSeen[key] {
+		r.stSeen[key] = true
+		r.status = append(r.status, [3]any{t.Ch + "/" + t.Tr, k, rr.Code})
+	}
+	r.stMu.Unlock()
 	if len(res.body) > 40 {
 		res.body = res.body[:40]
 	}
@@ -457,11 +513,19 @@ func (r *run) emitUp(u upRes) {
 	if r.w == nil {
 		return
 	}
+	if u.skipped || u.t == nil {
+		return
+	}
 	seg := "init"
 	if u.k >= 0 {
 		seg = "media"
 	}
-	r.w.Emit(tr.E{"ev": "up", "ch": u.t.Ch, "tr": u.t.Tr, "seg": seg, "k": u.k, "status": u.status, "body": u.body, "stored": u.stored})
+	cred := u.t.cred
+	if cred == "" || r.sc.auth == "none" {
+		cred = "ok"
+	}
+	r.w.Emit(tr.E{"ev": "up", "ch": u.t.Ch, "tr": u.t.Tr, "seg": seg, "k": u.k, "status": u.status, "body": u.body, "stored": u.stored,
+		"answered": !u.unanswered, "cred": cred})
 }
 
 // quiesce waits until the channel goroutines have processed `want` complete segments.
@@ -503,6 +567,7 @@ type outcome struct {
 	MPD    []asOut     `json:"mpd"`
 	HasTL  bool        `json:"hastl"`
 	TL     []tlOut     `json:"tl"`
+	St     [][3]any    `json:"st"` // (track, k, status) of every upload of the channel
 }
 
 // timeline reads manifest_timeline_nr.mpd of a channel: per AdaptationSet the representation ids and the
@@ -558,7 +623,7 @@ func (r *run) manifestIDs(ch string) ([]string, bool) {
 func (s *scenario) own(ch string) []string {
 	ids := []string{}
 	for _, t := range s.tracks {
-		if t.Ch == ch {
+		if t.Ch == ch && (t.cred == "" || s.auth == "none") {
 			ids = append(ids, t.Tr)
 		}
 	}
@@ -570,8 +635,21 @@ func (s *scenario) own(ch string) []string {
 // master track has its second segment (also for representations with a configured bitrate), which legitimately
 // depends on the upload order.
 func (r *run) final(ch string) outcome {
-	o := outcome{Files: [][2]string{}, MPD: []asOut{}}
+	o := outcome{Files: [][2]string{}, MPD: []asOut{}, St: [][3]any{}}
 	o.HasTL, o.TL = r.timeline(ch)
+	r.stMu.Lock()
+	for _, st := range r.status {
+		if strings.HasPrefix(st[0].(string), ch+"/") {
+			o.St = append(o.St, [3]any{strings.TrimPrefix(st[0].(string), ch+"/"), st[1], st[2]})
+		}
+	}
+	r.stMu.Unlock()
+	sort.Slice(o.St, func(i, j int) bool {
+		if o.St[i][0].(string) != o.St[j][0].(string) {
+			return o.St[i][0].(string) < o.St[j][0].(string)
+		}
+		return o.St[i][1].(int) < o.St[j][1].(int)
+	})
 	root := filepath.Join(r.dir, ch)
 	_ = filepath.Walk(root, func(p string, info os.FileInfo, err error) error {
 		if err != nil || info.IsDir() {
@@ -626,7 +704,11 @@ type planStep struct {
 // standardPlan: init uploads in the given order, then the media segments of each number in that order.
 func standardPlan(order []*track) []planStep {
 	var plan []planStep
-	for k := -1; k < 3; k++ {
+	n := 0
+	for _, t := range order {
+		n = max(n, len(t.segs))
+	}
+	for k := -1; k < n; k++ {
 		for _, t := range order {
 			if k == -1 && t.preload {
 				continue
@@ -650,8 +732,21 @@ func reference(sc *scenario, root string, plan []planStep) (map[string]outcome, 
 	n := int64(0)
 	for _, st := range plan {
 		u := r.upload(st.t, st.k)
-		if u.status != 200 || !u.stored {
-			return nil, fmt.Errorf("reference run: upload %s/%s k=%d answered %d stored=%v", st.t.Ch, st.t.Tr, st.k, u.status, u.stored)
+		if st.t.cred != "" && sc.auth != "none" {
+			if u.status != 401 {
+				return nil, fmt.Errorf("reference run: upload %s/%s k=%d with %s credentials answered %d", st.t.Ch, st.t.Tr, st.k, st.t.cred, u.status)
+			}
+			continue
+		}
+		if u.status != 200 || !u.stored || u.unanswered {
+			names := []string{}
+			if es, err := os.ReadDir(filepath.Join(r.dir, st.t.Ch, st.t.Tr)); err == nil {
+				for _, e := range es {
+					names = append(names, e.Name())
+				}
+			}
+			return nil, fmt.Errorf("reference run: upload %s/%s k=%d answered %d stored=%v unanswered=%v (track directory: %v; %s)", st.t.Ch, st.t.Tr,
+				st.k, u.status, u.stored, u.unanswered, names, sc.shape())
 		}
 		if st.k >= 0 {
 			n++
@@ -838,6 +933,7 @@ type driver struct {
 	assets map[string]*asset
 	refs   map[string][]namedRef
 	nScen  int // global index of the next scenario
+	nDead  int // runs in which an upload was not answered
 }
 
 type namedRef struct {
@@ -886,12 +982,16 @@ func (d *driver) headerPlans(sc *scenario, extra tr.E, plans []namedPlan) error 
 		return err
 	}
 	tl := []any{}
+	pre := [][]string{} // tracks whose init segment is on disk: registered by their first media upload
 	for _, t := range sc.tracks {
 		tl = append(tl, []string{t.Ch, t.Tr, t.Mt, t.Lang})
+		if t.preload && (t.cred == "" || sc.auth == "none") {
+			pre = append(pre, []string{t.Ch, t.Tr})
+		}
 	}
 	e := tr.E{"ev": "hdr", "sc": d.nScen, "kind": sc.kind, "nch": len(sc.chans), "ntr": len(sc.tracks), "auth": sc.auth,
 		"repcfg": sc.repcfg, "sender": sc.sender, "streamurl": sc.streamURL, "clhdr": sc.clHeader, "tracks": tl,
-		"shape": sc.shape(), "variant": sc.variant}
+		"shape": sc.shape(), "variant": sc.variant, "pre": pre, "startnr": sc.startNr, "langcfg": sc.langcfg}
 	for k, v := range extra {
 		e[k] = v
 	}
@@ -900,7 +1000,7 @@ func (d *driver) headerPlans(sc *scenario, extra tr.E, plans []namedPlan) error 
 		for _, ch := range sc.chans {
 			o := nr.out[ch]
 			d.w.Emit(tr.E{"ev": "ref", "ch": ch, "order": nr.name, "indep": nr.indep, "files": o.Files, "hasmpd": o.HasMPD,
-				"mpd": o.MPD, "hastl": o.HasTL, "tl": o.TL})
+				"mpd": o.MPD, "hastl": o.HasTL, "tl": o.TL, "st": o.St})
 		}
 	}
 	return nil
@@ -908,7 +1008,12 @@ func (d *driver) headerPlans(sc *scenario, extra tr.E, plans []namedPlan) error 
 
 // footer: agree = yes | fixed | no | na | aborted (does the real run show what the explorer predicts; never a verdict)
 func (d *driver) footer(r *run, nOK int64, agree string) {
-	q := r.quiesce(nOK)
+	q := false
+	if !r.dead.Load() {
+		q = r.quiesce(nOK)
+	} else {
+		d.nDead++
+	}
 	created := map[string]int{}
 	for _, ch := range r.sc.chans {
 		o := r.final(ch)
@@ -922,9 +1027,9 @@ func (d *driver) footer(r *run, nOK int64, agree string) {
 			newest = v
 		}
 		d.w.Emit(tr.E{"ev": "final", "ch": ch, "files": o.Files, "hasmpd": o.HasMPD, "mpd": o.MPD, "hastl": o.HasTL, "tl": o.TL,
-			"objects": n, "own": r.sc.own(ch), "newest": newest})
+			"objects": n, "own": r.sc.own(ch), "newest": newest, "st": o.St})
 	}
-	d.w.Emit(tr.E{"ev": "end", "quiesced": q, "mediaok": int(nOK), "agree": agree})
+	d.w.Emit(tr.E{"ev": "end", "quiesced": q, "mediaok": int(nOK), "agree": agree, "dead": r.dead.Load()})
 	d.w.Commit()
 	d.nScen++
 }
@@ -1194,6 +1299,8 @@ func Main(args []string) error {
 	nRoundsSc := fs.Int("rounds", 4, "number of many-rounds scenarios (several channels in one storage directory)")
 	nBurst := fs.Int("bursts", 3, "number of burst configurations (all handlers released at once at one gate)")
 	burstReps := fs.Int("burstreps", 4, "repetitions of every burst configuration and gate")
+	nLive := fs.Int("lives", 3, "number of liveness scenarios (8..12 tracks of one channel, multi-chunk segments)")
+	liveLen := fs.Int("livelen", 4, "rounds per liveness scenario")
 	roundLen := fs.Int("roundlen", 12, "rounds per many-rounds scenario")
 	from := fs.Int("from", 0, "index of the first scenario to run (the parent restarts a child that the Go runtime killed)")
 	repo := fs.String("repo", os.Getenv("VERIF_REPO"), "repository root")
@@ -1268,7 +1375,7 @@ func Main(args []string) error {
 	nSC := *nStartConc * *nSets
 	nConc := *nShapes * *reps
 	nB := *nBurst * 2 * *burstReps
-	total := len(gens) + nStart + nSC + nConc + *nRoundsSc + nB
+	total := len(gens) + nStart + nSC + nConc + *nRoundsSc + nB + *nLive
 	for idx := *from; idx < total; idx++ {
 		d.nScen = idx
 		c := idx
@@ -1288,12 +1395,21 @@ func Main(args []string) error {
 		case c < len(gens)+nStart+nSC+nConc+*nRoundsSc:
 			c -= len(gens) + nStart + nSC + nConc
 			err = d.rounds(d.roundsScenario(*seed, c, *roundLen), *roundLen)
+		case c >= len(gens)+nStart+nSC+nConc+*nRoundsSc+nB:
+			c -= len(gens) + nStart + nSC + nConc + *nRoundsSc + nB
+			err = d.burst(d.liveScenario(*seed, c, *liveLen), "reg", 0)
 		default:
 			c -= len(gens) + nStart + nSC + nConc + *nRoundsSc
 			err = d.burst(d.burstScenario(*seed, c/(2**burstReps)), []string{"reg", "add"}[(c / *burstReps)%2], c%*burstReps)
 		}
 		if err != nil {
 			return err
+		}
+		if d.nDead >= 2 {
+			// every dead run costs answerBound; the observation has been made
+			w.Emit(tr.E{"ev": "note", "what": "stopped_early", "result": fmt.Sprintf("%d runs with unanswered uploads; scenarios %d..%d not run", d.nDead, idx+1, total-1)})
+			w.Commit()
+			break
 		}
 	}
 	if err := w.Close(); err != nil {
